@@ -19,8 +19,8 @@ type chanCore struct {
 	buf    []slot
 	closed bool
 
-	nsent   int
-	recvVCs []VC
+	nsent, nrecv int        // completed sends into / receives out of the buffer
+	recvVC       map[int]VC // clock of the k-th receive, until the (k+cap)-th send has taken it
 
 	hRQ, hSQ uint64 // commutative hashes of the parked receivers / senders
 
@@ -54,7 +54,7 @@ func (k *chanCore) synced() *chanCore {
 		k.ep = S.epoch
 		k.obj = NewObj("chan")
 		k.name = fmt.Sprintf("global-chan#%x", k.obj.ID&0xffff)
-		k.buf, k.closed, k.nsent, k.recvVCs, k.hRQ, k.hSQ = nil, false, 0, nil, 0, 0
+		k.buf, k.closed, k.nsent, k.nrecv, k.recvVC, k.hRQ, k.hSQ = nil, false, 0, 0, nil, 0, 0
 	}
 	return k
 }
